@@ -191,7 +191,7 @@ pub enum Dialect { Plain, Timestamps, Git, Quoted, Orig }
 pub fn quote(name: &str) -> String {
     let mut s = String::from("\"");
     for b in name.bytes() {
-        match b { b'"' => s.push_str("\\\""), b'\\' => s.push_str("\\\\"), b' ' => s.push_str("\\040"), _ => s.push(b as char) }
+        match b { b'"' => s.push_str("\\\""), b'\\' => s.push_str("\\\\"), b' ' => s.push_str("\\040"), 0x0b => s.push_str("\\013"), _ => s.push(b as char) }
     }
     s.push('"');
     s
@@ -219,7 +219,7 @@ pub fn render_header(h: &HeaderSpec) -> Vec<u8> {
     let mut out = String::new();
     let on = h.old.map(|n| format!("{}{}", prefix(h.p, 'a'), n));
     let nn = h.new.map(|n| format!("{}{}", prefix(h.p, 'b'), n));
-    let name = |x: &Option<String>| match x { None => "/dev/null".to_string(), Some(n) => if h.dialect == Dialect::Quoted || n.contains(' ') { quote(n) } else { n.clone() } };
+    let name = |x: &Option<String>| match x { None => "/dev/null".to_string(), Some(n) => if h.dialect == Dialect::Quoted || n.contains(' ') || n.contains('\x0b') { quote(n) } else { n.clone() } };
     let git = h.dialect == Dialect::Git || h.rename || h.old_mode.is_some() || h.new_mode.is_some();
     if git {
         let a = on.clone().or_else(|| h.new.map(|n| format!("{}{}", prefix(h.p, 'a'), n)));
@@ -248,7 +248,9 @@ pub fn pick_dialect(rng: &mut Rng) -> Dialect {
 
 // (no name is a directory of another one: a series that turns a directory into a file or back is the
 // known finding dir-file-swap, kept as a witness in corpus/ rather than generated)
-pub const NAMES: [&str; 8] = ["f", "g", "d/h", "d/e/k", "n1", "d/n2", "m", "sp ace"];
+// ("v\x0bt": a vertical tab is white space to the patch parser — such a name has to be written quoted, in patches
+// and in the headers of reject files — but not to `u8::is_ascii_whitespace`)
+pub const NAMES: [&str; 9] = ["f", "g", "d/h", "d/e/k", "n1", "d/n2", "m", "sp ace", "v\x0bt"];
 pub const MODES: [u32; 3] = [0o100644, 0o100755, 0o100600];
 
 /// another spelling of the same file name: a leading "./" (survives -p0 as a `.` component), a doubled
